@@ -410,10 +410,11 @@ pub fn run_tree_in(t: &GTree, domain: Domain, start_path: &[usize], params: &[Pa
     normalizer_oracle(t, start_path, params, sink);
 }
 
-/// The `*_with_normalizer` entry points (implementation only; the model takes the identity
-/// normalizer): serialising a tree with a normalizer must give what serialising the normalised
-/// tree gives — the normalizer runs on the character data / attribute values BEFORE they are
-/// escaped, so markup characters it produces are escaped like any others.
+/// The `*_with_normalizer` entry points: serialising a tree with a normalizer must give what
+/// serialising the normalised tree gives — the normalizer runs on the character data / attribute
+/// values BEFORE they are escaped, so markup characters it produces are escaped like any others
+/// (oracle on the implementation; proved in the model: C14_normalizer_is_premap).  The result under
+/// the normalizer is also a correspondence line (`ser xml_string_norm`, model: `fullwidthNorm`).
 fn normalizer_oracle(t: &GTree, start_path: &[usize], params: &[Params], sink: &mut Sink) {
     let mut rng = Rng::new(0x4e0f ^ (t.size() as u64 * 7919 + start_path.len() as u64));
     let tf = sprinkle_fullwidth(t, &mut rng);
@@ -441,6 +442,12 @@ fn normalizer_oracle(t: &GTree, start_path: &[usize], params: &[Params], sink: &
     };
     for p in params {
         let a = res_of(guarded(|| xa.serialize_xml_string_with_normalizer(p.xml_params(&va), na[idx], FullwidthNormalizer)));
+        // correspondence: the model's `serializeXmlStringWith (normEscapers fullwidthNorm)` on the same tree
+        sink.emit(
+            format!("ser xml_string_norm {} {} {}", p.wire(), path_str(start_path), tf.wire()),
+            a.show(|s| format!("ok {}", enc(s))),
+        );
+        sink.stat(&format!("normalizer.request.{}", a.kind()));
         let b = res_of(guarded(|| xb.serialize_xml_string(p.xml_params(&vb), nb[idx])));
         let same = match (&a, &b) {
             (Res::Ok(x), Res::Ok(y)) => x == y,
@@ -559,6 +566,57 @@ fn exhaustive(sink: &mut Sink) {
     }
 }
 
+/// The boundary of "with a normalizer = the normalised tree without one" (C14_normalizer_is_premap, hypothesis
+/// `NsWritten`; C14_normalizer_ns_necessary): the namespace URI of an `xmlns` declaration goes through the
+/// normalizer too, but is no string of the tree.  Correspondence lines only, with a vocabulary that has a
+/// namespace URI containing fullwidth forms; `xml:space` values next to it (read as stored by `Pretty`).
+fn normalizer_boundary(sink: &mut Sink) {
+    use GValue::*;
+    let mk = |xot: &mut Xot| {
+        let mut v = ser_vocab(xot);
+        let ns = v.add_ns(xot, "urn:\u{ff06}\u{ff1c}\u{ff02}");
+        let el = v.add_name(xot, "f", ns);
+        let at = v.add_name(xot, "g", ns);
+        (v, ns, el, at)
+    };
+    let (wire, ns, el, at) = {
+        let mut xot = Xot::new();
+        let (v, ns, el, at) = mk(&mut xot);
+        (v.wire(), ns, el, at)
+    };
+    sink.emit(wire, "ok".to_string());
+    let trees = [
+        GTree::new(Element(el), vec![GTree::leaf(Namespace(0, ns)), GTree::leaf(Text("\u{ff1c}\u{ff06}".into()))]),
+        GTree::new(Document, vec![GTree::new(Element(el), vec![
+            GTree::leaf(Namespace(2, ns)),
+            GTree::leaf(Attribute(at, "\u{ff02}\u{ff07}".into())),
+            GTree::leaf(Attribute(0, "preserve".into())),
+            GTree::new(Element(2), vec![GTree::new(Element(3), vec![])]),
+        ])]),
+        GTree::new(Document, vec![GTree::new(Element(2), vec![
+            GTree::leaf(Attribute(0, "\u{ff1c}preserve".into())),
+            GTree::new(Element(el), vec![GTree::leaf(Namespace(0, ns)), GTree::new(Element(el), vec![])]),
+        ])]),
+    ];
+    let params = [Params::plain(), Params { indent: Some(vec![]), ..Params::plain() }, Params { cdata: vec![el], gt: true, ..Params::plain() }];
+    for t in &trees {
+        let mut xot = Xot::new();
+        let (v, ..) = mk(&mut xot);
+        let root = match build(&mut xot, &v, t, true) {
+            Ok(r) => r,
+            Err(_) => continue,
+        };
+        for p in &params {
+            let r = res_of(guarded(|| xot.serialize_xml_string_with_normalizer(p.xml_params(&v), root, FullwidthNormalizer)));
+            sink.emit(format!("ser xml_string_norm {} . {}", p.wire(), t.wire()), r.show(|s| format!("ok {}", enc(s))));
+            sink.stat("normalizer.boundary.namespace-uri");
+        }
+    }
+    let mut xot = Xot::new();
+    let vocab = ser_vocab(&mut xot);
+    sink.emit(vocab.wire(), "ok".to_string());
+}
+
 pub fn run(seed: u64, count: usize, tier: &str, sink: &mut Sink) {
     let mut rng = Rng::new(seed ^ 0x5E71A1);
     {
@@ -567,6 +625,7 @@ pub fn run(seed: u64, count: usize, tier: &str, sink: &mut Sink) {
         sink.emit(vocab.wire(), "ok".to_string());
     }
     corpus(sink);
+    normalizer_boundary(sink);
     if tier == "thorough" {
         exhaustive(sink);
     }
